@@ -47,20 +47,21 @@ func (g *G) lifetime() int64 { return pick(g, int64(0), 1, 2, 5, 10, 60, 100, 36
 func ccJoin(ds []string) string { return strings.Join(ds, ", ") }
 
 type storedSpec struct {
-	status     int
-	maxAge     string // "" absent
-	expiresOff string // "", "invalid", or seconds offset from Date as string
-	lmOff      string // "", or seconds before Date (may be negative = after)
-	age        string
-	etag       bool
-	flags      []string // other directives
-	swr, sie   string
-	dateSkew   int64 // Date = now + skew
-	noDate     bool
-	zeroDate   bool // Date: Mon, 01 Jan 0001 00:00:00 GMT (Go's zero time, a valid HTTP-date of a response two millennia old)
-	delayNs    int64
-	extra      Hdr
-	vary       string
+	status         int
+	maxAge         string // "" absent
+	expiresOff     string // "", "invalid", or seconds offset from Date as string
+	lmOff          string // "", or seconds before Date (may be negative = after)
+	age            string
+	etag           bool
+	flags          []string // other directives
+	swr, sie       string
+	dateSkew       int64 // Date = now + skew
+	noDate         bool
+	badFirstCCLine bool // a Cache-Control line with an unterminated quoted-string in front of the real one
+	zeroDate       bool // Date: Mon, 01 Jan 0001 00:00:00 GMT (Go's zero time, a valid HTTP-date of a response two millennia old)
+	delayNs        int64
+	extra          Hdr
+	vary           string
 }
 
 func (g *G) genStored(focus string) storedSpec {
@@ -123,6 +124,7 @@ func (g *G) genStored(focus string) storedSpec {
 		s.dateSkew = pick(g, int64(-3600), -10, -1, 1, 10, 3600)
 	}
 	s.noDate = g.chance(0.06)
+	s.badFirstCCLine = g.chance(0.03)
 	s.zeroDate = !s.noDate && g.chance(0.03)
 	if g.chance(0.2) {
 		s.delayNs = pick(g, int64(1), sec, 2*sec, 3*sec+1)
@@ -158,6 +160,9 @@ func (s storedSpec) reply(atNs int64, body string) Reply {
 		cc = append(cc, "stale-if-error="+s.sie)
 	}
 	if len(cc) > 0 {
+		if s.badFirstCCLine {
+			h = append(h, [2]string{"Cache-Control", `x="unterminated`})
+		}
 		h = append(h, [2]string{"Cache-Control", ccJoin(cc)})
 	}
 	switch s.expiresOff {
@@ -332,6 +337,11 @@ func (g *G) genGrid(id string) *History {
 // (RFC 9110 §5.3: the lines of a field are one comma-separated list); a more aggressive request
 // puts the directive that matters last
 func (g *G) ccLines(cc []string) Hdr {
+	if g.chance(0.04) {
+		// a malformed field line (a quoted-string that never ends) in front of well-formed ones: a quoted-string
+		// cannot extend over field lines, so the later lines say what they say
+		return append(Hdr{{"Cache-Control", pick(g, `x="unterminated`, `b"`, `x="a\`)}}, Hdr{{"Cache-Control", ccJoin(cc)}}...)
+	}
 	if len(cc) < 2 || !g.chance(0.3) {
 		return Hdr{{"Cache-Control", ccJoin(cc)}}
 	}
